@@ -130,6 +130,7 @@ impl Prop for C01 {
         ]
     }
     fn run(&self, ctx: &Ctx) {
+        ctx.journal_bytes.set(true);
         let cases = ctx.tier.pick(1_500u32, 25_000u32);
         ctx.run_bytes("session", cases, 1536, case);
     }
